@@ -46,7 +46,7 @@ fn relate(c: &Case, m: &c04::Mat, ctx: &Ctx, dir: &std::path::Path) -> Result<Ve
             return Ok(vec!["both_refused"]);
         }
         let v = parse_vcf(&vcf.stdout).map_err(Outcome::Fail)?;
-        let cnames = c04::contig_names(m.reference.len());
+        let cnames = c04::contig_names(&m.reference);
         if v.contigs != cnames {
             return Err(Outcome::Fail(format!("##contig lines {:?}, reference contigs {:?}", v.contigs, cnames)));
         }
